@@ -1083,7 +1083,40 @@ def windowlimit(rng):
     return {"cfg": cfg, "ops": ops}
 
 
-FAMILIES = {"windowlimit": windowlimit, "tampercs": tampercs, "fwdlate": fwdlate, "asyncsign": asyncsign, "skim": skim, "batchopen": batchopen, "discomplete": discomplete, "monbcast": monbcast, "staletwo": staletwo, "bigclaim": bigclaim, "dustclose": dustclose, "slots": slots, "asynccross": asynccross, "blockedjump": blockedjump, "feecross": feecross, "opendisc": opendisc, "chainsettle": chainsettle, "crosslimit": crosslimit, "evhold": evhold, "failwin": failwin, "fanin": fanin, "inflight": inflight, "holdcell": holdcell, "stalehold": stalehold}
+def openshut(rng):
+    """A channel is opened while one side's first monitor write is in flight; before that write completes the peer asks
+    to close the new channel (no upfront shutdown script: the `shutdown` produces a second monitor update, in flight as
+    well); the writes complete in any order (C09: nothing that depends on an update -- the funding broadcast,
+    channel_ready -- is released until that update AND ALL EARLIER ONES are complete)."""
+    ops, npay = [], 0
+    if rng.random() < 0.4:
+        ops += [{"op": "send", "from": 0, "to": 1, "amt": "big"}, {"op": "deliver_all"}]
+        npay += 1
+    a, b = rng.choice([(0, 1), (1, 0)])
+    x = rng.choice([a, b])                  # the slow side
+    y = a + b - x
+    ops.append({"op": "persist_mode", "node": x, "mode": "inprogress"})
+    ops.append({"op": "open_extra", "a": a, "b": b})
+    ops += [{"op": "deliver", "from": a, "to": b}, {"op": "deliver", "from": b, "to": a}] * 2
+    if x == b and rng.random() < 0.8:
+        ops += [{"op": "confirm_extra"}]
+    ops += _deliveries(rng, [(a, b), (b, a)], rng.randrange(0, 3))
+    ops.append({"op": "close_extra", "a": y, "b": x})
+    ops += [{"op": "deliver", "from": y, "to": x}] * rng.choice([1, 2, 3])
+    for _ in range(rng.choice([1, 2, 2, 3])):
+        ops.append({"op": "complete", "node": x, "which": rng.choice(["newest", "newest", "random", "oldest"])})
+        ops += _deliveries(rng, [(a, b), (b, a)], rng.randrange(0, 3))
+        if rng.random() < 0.3:
+            ops.append({"op": "confirm_extra"})
+    ops.append({"op": "confirm_extra"})
+    ops += _wind_down(npay, rng, [(0, 1)])
+    ops[len(ops) - 1:len(ops) - 1] = [{"op": "confirm_extra"}, {"op": "deliver_all"}]
+    c = _cfg(rng, 2)
+    c["upfront_shutdown"] = False
+    return {"cfg": c, "ops": ops}
+
+
+FAMILIES = {"openshut": openshut, "windowlimit": windowlimit, "tampercs": tampercs, "fwdlate": fwdlate, "asyncsign": asyncsign, "skim": skim, "batchopen": batchopen, "discomplete": discomplete, "monbcast": monbcast, "staletwo": staletwo, "bigclaim": bigclaim, "dustclose": dustclose, "slots": slots, "asynccross": asynccross, "blockedjump": blockedjump, "feecross": feecross, "opendisc": opendisc, "chainsettle": chainsettle, "crosslimit": crosslimit, "evhold": evhold, "failwin": failwin, "fanin": fanin, "inflight": inflight, "holdcell": holdcell, "stalehold": stalehold}
 
 
 def make(rng, family, count):
